@@ -232,10 +232,18 @@ func applyEdits(p *idlm.Program, r *core.Rand, n int) []c20Edit {
 			}
 			nf := *fl
 			nf.Type = nt
+			exp := []diag{{f.Path, "field-type-changed", fl.Name + "," + s.Name, f.Path}}
+			desc := fmt.Sprintf("change type of %s.%s from %s to %s", s.Name, fl.Name, thriftName(fl.Type), thriftName(nt))
+			if s.Kind != idlm.KUnion && fl.Req == idlm.ReqOptional && r.Chance(1, 3) {
+				// the same field also becomes required in the same commit: two findings
+				nf.Req = idlm.ReqRequired
+				exp = append(exp, diag{f.Path, "optional-to-required", fl.Name + "," + s.Name, f.Path})
+				desc += " and make it required"
+			}
 			replaceField(s, fl, &nf)
 			touched[key] = true
 			touched["edited/"+f.Path+"/"+s.Name] = true
-			out = append(out, c20Edit{fmt.Sprintf("change type of %s.%s from %s to %s", s.Name, fl.Name, thriftName(fl.Type), thriftName(nt)), []diag{{f.Path, "field-type-changed", fl.Name + "," + s.Name, f.Path}}})
+			out = append(out, c20Edit{desc, exp})
 		case op == 11 && len(structs) > 0: // change a field's type NAME to a new alias of the very same type
 			s := structs[r.Intn(len(structs))]
 			if len(s.Fields) == 0 {
